@@ -413,6 +413,11 @@ func (e *Exec) assignTo(st *State, l ast.Expr, v Term, t types.Type) {
 			s := e.eval(st, x.X)
 			i := e.evalInt(st, x.Index)
 			e.oblige(st, "idx", "", And(Le(IntLit(0), i), Lt(i, SLen(s))), "index in range (store): "+e.src(x), x.Pos())
+			if isObjElem(u.Elem()) {
+				e.curPos = x.Pos()
+				e.storeElem(st, s, u.Elem(), i, v) // field stores, each with its own frame check
+				return
+			}
 			e.checkFrame(st, elemKey(u.Elem()), SRef(s), ElemIdx(s, i), true, x.Pos())
 			e.storeElem(st, s, u.Elem(), i, e.toSort(v, e.elemSort(u.Elem())))
 		case *types.Array:
@@ -488,12 +493,22 @@ func (e *Exec) checkFrame(st *State, key string, ref Term, idx Term, isElem bool
 		return
 	}
 	allowed := []Term{Ge(ref, e.alloc0)}
+	if !isElem && e.declared["eref"] {
+		// a field of an element of a slice of structs whose backing array was allocated by this call
+		allowed = append(allowed, And(Lt(ref, IntLit(0)), Ge(mk(SInt, "einv1", ref), e.alloc0)))
+	}
 	for _, m := range e.modRefs {
 		if m.key != key {
 			continue
 		}
 		if m.any {
 			allowed = append(allowed, True)
+			continue
+		}
+		if m.earr.S != "" {
+			if !isElem {
+				allowed = append(allowed, And(m.when(), isErefIn(ref, m.earr, m.lo, m.hi)))
+			}
 			continue
 		}
 		if isElem && m.isElem {
